@@ -53,10 +53,10 @@ def run(chk):
     try:
         f_per = (0, L.Counter())
         for a in per_s:
-            f_per = L.add(f_per, L.of_int(a.value))
+            f_per = L.add(f_per, L.of_int(norm.subst(a.value, a)))
         f_clo = (0, L.Counter())
         for a in clo_s:
-            f_clo = L.add(f_clo, L.of_int(a.value))
+            f_clo = L.add(f_clo, L.of_int(norm.subst(a.value, a)))
     except L.NotLinear as e:
         chk.violation("C19.size", size, "total += ...", f"non-linear term {e}", "the declared size is no longer a sum of lengths of the emitted pieces")
         return
@@ -66,14 +66,14 @@ def run(chk):
         for e in per:
             f_w = L.add(f_w, L.of_bytes(e))
         # the part body: part.write(writer) / part.as_bytes(...) contributes the part's own size
-        body_terms = {"len(part_bytes)": "part_size"}
+        body_terms = {"len(part_bytes)": "part.size"}
         t = L.Counter()
         for k, v in f_w[1].items():
             t[body_terms.get(k, k)] += v
         f_w = (f_w[0], t)
         if name == "write()":
             if K.exprs(fn, "part.write(writer)"):
-                f_w = L.add(f_w, (0, L.Counter({"part_size": 1})))
+                f_w = L.add(f_w, (0, L.Counter({"part.size": 1})))
         f_c = (0, L.Counter())
         for e in closing:
             f_c = L.add(f_c, L.of_bytes(e))
